@@ -105,6 +105,16 @@ func famLossValue(g *Gen) {
 	if g.isT(l) && g.isT(l2) {
 		g.do(Cmd{Op: OpEquals, T: l, U: T(l2)})
 	}
+	// predictions that reproduce the targets exactly (soft labels included), as two tensors and as one: the loss
+	// of a perfect prediction is the loss formula at p = t (for BCE / CE: the entropy of the labels, not 0)
+	if g.chance(0.3) {
+		g.tag("prediction-equals-target")
+		sv := g.probVals(n, g.chance(0.5))
+		ps := g.leafVals(ds, sv, g.chance(0.5))
+		ts := g.leafVals(ds, append([]float64{}, sv...), false)
+		g.do(Cmd{Op: OpLoss, K: k, Targs: []Targ{T(ps), T(ts)}})
+		g.do(Cmd{Op: OpLoss, K: k, Targs: []Targ{T(ts), T(ts)}})
+	}
 	// the same loss object over an epoch: batch sizes grow and SHRINK (a short last batch), values incl. <= 0 and >= 1
 	if g.chance(0.5) {
 		g.tag("epoch-of-batches")
@@ -185,6 +195,42 @@ func famLossGrad(g *Gen) {
 			g.do(Cmd{Op: OpBackprop, U: T(l)})
 		}
 	}
+	if g.chance(0.25) {
+		// the way training continues: prediction and target of the NEXT step are both derived from tensors of a graph
+		// that was already back-propagated (an update p - 0.1*grad, a scaled copy), then re-declared as a tracked leaf
+		// and a frozen target (in either order), and the loss of the two is back-propagated
+		g.tag("inputs-derived-from-trained-tensors")
+		p0 := g.leafVals(ds, g.probVals(n, false), true)
+		q0 := g.leafVals(ds, g.probVals(n, false), true)
+		l0, _ := g.do(Cmd{Op: OpLoss, K: k, Targs: []Targ{T(p0), T(q0)}})
+		if g.isT(l0) {
+			g.do(Cmd{Op: OpBackprop, U: T(l0)})
+			derive := func(x int) int {
+				if gr, o := g.do(Cmd{Op: OpGradOf, T: x}); o.Kind == "tensor" && g.chance(0.6) {
+					d, _ := g.do(Cmd{Op: OpScale, T: gr, A: Dec{1, -3}})
+					if y, oy := g.do(Cmd{Op: OpBin, K: 9, T: x, U: T(d)}); oy.Kind == "tensor" {
+						return y
+					}
+				}
+				y, _ := g.do(Cmd{Op: OpScale, T: x, A: Dec{1, 0}})
+				return y
+			}
+			p1, q1 := derive(p0), derive(q0)
+			if g.isT(p1) && g.isT(q1) {
+				if g.chance(0.5) {
+					g.do(Cmd{Op: OpReset, T: p1, Flag: true})
+					g.do(Cmd{Op: OpReset, T: q1, Flag: false})
+				} else {
+					g.do(Cmd{Op: OpReset, T: q1, Flag: false})
+					g.do(Cmd{Op: OpReset, T: p1, Flag: true})
+				}
+				l1, _ := g.do(Cmd{Op: OpLoss, K: k, Targs: []Targ{T(p1), T(q1)}})
+				if g.isT(l1) {
+					g.do(Cmd{Op: OpBackprop, U: T(l1)})
+				}
+			}
+		}
+	}
 	pass()
 	if g.chance(0.45) {
 		// further batches of the same size through the SAME loss object
@@ -219,6 +265,18 @@ func (g *Gen) actVals(n int, k int) []float64 {
 		default:
 			out[i] = math.Round((g.rng.Float64()*8-4)*1000) / 1000
 		}
+	}
+	if k == 4 && g.chance(0.15) {
+		// whole regions of the input far apart (one block of logits near +400, another near -400, within the
+		// property's |x| <= 700): every slice is normalised on its own
+		for i := range out {
+			base := float64(g.pick(400, -400, 0, 390))
+			if i < n/2 {
+				base = -base
+			}
+			out[i] = base + math.Round(g.rng.Float64()*8*1000)/1000
+		}
+		return out
 	}
 	if k == 4 {
 		// keep e^x finite relative to each other: avoid mixing +700 and the rest in one fibre overflow
@@ -449,7 +507,25 @@ func famFC(g *Gen) {
 			g.do(Cmd{Op: OpEquals, T: yr, U: T(ys)})
 		}
 	}
-	if g.isT(y) {
+	if g.isT(y) && g.chance(0.35) {
+		// the layer's output feeds TWO consumers (y * tanh(y), or a softmax whose exponentials are used twice): the
+		// parameters receive the contributions of both paths
+		g.tag("output-with-two-consumers")
+		var z int
+		if g.chance(0.5) {
+			th, _ := g.do(Cmd{Op: OpMath, K: 7, T: y})
+			if g.chance(0.5) {
+				z, _ = g.do(Cmd{Op: OpBin, K: 10, T: y, U: T(th)})
+			} else {
+				z, _ = g.do(Cmd{Op: OpBin, K: 10, T: th, U: T(y)})
+			}
+		} else {
+			z, _ = g.do(Cmd{Op: OpAct, K: 4, HasZ: true, Z: 1, Targs: []Targ{T(y)}})
+		}
+		if g.isT(z) {
+			g.weightAndBackprop(z)
+		}
+	} else if g.isT(y) {
 		g.weightAndBackprop(y)
 	}
 	if g.isT(y) && g.isT(w) && g.isT(b) && g.chance(0.5) {
@@ -662,12 +738,22 @@ func famAccuracy(g *Gen) {
 			b = g.pick(129, 200, 257, 513, 1000)
 		}
 		pv, tv := make([]float64, b), make([]float64, b)
+		tiny := g.chance(0.15)
+		if tiny {
+			// scores of very small magnitude that differ (3e-30 against 0, 4e-26 against 5e-26) are different values
+			g.tag("tiny-magnitudes")
+		}
 		for j := range pv {
 			pv[j] = float64(g.intn(4))
 			if g.chance(0.6) || (long && j == b-1) {
 				tv[j] = pv[j]
 			} else {
 				tv[j] = float64(g.intn(4)) + float64(g.pick(0, 0, 1))*0.5
+			}
+			if tiny {
+				pool := []float64{0, 3e-30, 4e-26, 5e-26, 1e-200, -1e-200, 2e-239, 1e-100}
+				pv[j] = pool[g.intn(len(pool))]
+				tv[j] = pool[g.intn(len(pool))]
 			}
 		}
 		allP, allT = append(allP, pv...), append(allT, tv...)
